@@ -74,6 +74,13 @@ pub fn vreset() {
     }
 }
 
+/// Work limit for one substring-search op: 10x above the largest cost observed on the unchanged tree (the proved
+/// constants are larger: they are upper bounds, this is a test threshold), far below quadratic work
+/// on the adversarial families.
+pub fn tick_limit(hay: usize, needle: usize) -> u64 {
+    64 * (hay as u64 + needle as u64) + 2_000_000
+}
+
 #[global_allocator]
 static GLOBAL: alloc_probe::Counting = alloc_probe::Counting;
 
